@@ -653,7 +653,7 @@ class ObjectCollection(
         """Creates a copy of this ObjectCollection. The objects of the
         collection are not copied!
         """
-        oc = ObjectCollection(self._obj_type)
+        oc = copy.copy(self)
         oc._objects = copy.copy(self._objects)
         return oc
 
@@ -866,6 +866,14 @@ class NamedObjectCollection(ObjectCollection):
 
         return self
     __iadd__ = add
+
+    def copy(self):
+        """Creates a copy of this NamedObjectCollection. The objects of the
+        collection are not copied!
+        """
+        oc = super().copy()
+        oc._obj_name_to_idx = copy.copy(self._obj_name_to_idx)
+        return oc
 
     def get_index_by_name(self, name):
         """Gets the index of the object with the given name within this named
